@@ -6,6 +6,7 @@ import (
 	"os"
 	"path/filepath"
 	"strings"
+	"sync/atomic"
 	"testing"
 	"time"
 
@@ -123,6 +124,7 @@ func runC19(t testing.TB, c C19Case) (key, what string, classes []string) {
 		_, nMuteBefore := firstSeen(p, muteMsg)
 		_, nUnmuteBefore := firstSeen(p, unmuteMsg)
 		var floodStop, floodDone chan struct{}
+		var floodLast atomic.Int64 // unix nanoseconds of the last chunk handed to the connection
 		if cy.PressInFlood > 0 {
 			floodStop, floodDone = make(chan struct{}), make(chan struct{})
 			go func() {
@@ -134,10 +136,12 @@ func runC19(t testing.TB, c C19Case) (key, what string, classes []string) {
 						return
 					default:
 					}
-					io.c.SetWriteDeadline(time.Now().Add(3 * time.Second))
+					// no write deadline: a timed-out TLS write would poison the
+					// connection for the rest of the session
 					if io.Send(chunk) != nil {
 						return
 					}
+					floodLast.Store(time.Now().UnixNano())
 					time.Sleep(150 * time.Microsecond)
 				}
 			}()
@@ -149,8 +153,12 @@ func runC19(t testing.TB, c C19Case) (key, what string, classes []string) {
 		announced := p.WaitCount(10*time.Second, muteMsg, nMuteBefore+1)
 		if floodStop != nil {
 			close(floodStop)
-			<-floodDone
-			io.c.SetWriteDeadline(time.Time{})
+			select {
+			case <-floodDone:
+			case <-time.After(5 * time.Second):
+				// still blocked in a send (the program is not reading): it ends
+				// when the connection is closed
+			}
 		}
 		if !announced {
 			if cy.PressInFlood > 0 {
@@ -167,11 +175,22 @@ func runC19(t testing.TB, c C19Case) (key, what string, classes []string) {
 		time.Sleep(guard)
 		lastPlain := ctrlO
 		if cy.PressInFlood > 0 {
-			// whatever of the flood was still queued has been swallowed by now
-			if err := marker("muted"); err != nil {
-				return "HARNESS", err.Error(), classes
+			// Whatever of the flood was still queued has been swallowed by now.
+			// The harness may see the announcement late (it reads megabytes of
+			// flood from the pty first): if the flood ended long ago, the mute
+			// may legitimately be over already, so the last suppressed output
+			// is the flood's last chunk and no further "muted" marker is sent.
+			if fl := time.Unix(0, floodLast.Load()); floodLast.Load() != 0 && time.Since(fl) > 800*time.Millisecond {
+				lastPlain = fl
+				classes = append(classes, "announcement-seen-late")
+				// nothing more is sent "while muted" in this cycle
+				cy.GapsMS, cy.StatusAt, cy.StatusLateMS, cy.DenseFlood, cy.DenseStatus, cy.SecondCtrl = nil, nil, nil, 0, 0, 0
+			} else {
+				if err := marker("muted"); err != nil {
+					return "HARNESS", err.Error(), classes
+				}
+				lastPlain = time.Now()
 			}
-			lastPlain = time.Now()
 		}
 		statusSet := map[int]bool{}
 		for _, i := range cy.StatusAt {
